@@ -249,6 +249,14 @@ def run_config(ctx, rep, cfg, F):
         for kind, line in sites:
             n_sites += 1
             reason = tabulated(base, f["file"], kind)
+            if reason is None and kind in ("assert:Misaligned", "assert:NullDeref"):
+                # debug-build checks on `*ptr`: cannot fire when every raw pointer of the function derives from a reference
+                # (UnsafeCell::get / as_ptr / add): no integer-to-pointer cast, no transmute outside macro expansions
+                bad_casts = [x for x in m.get("casts", []) if not x.get("exp") and ((x["kind"] == "Transmute" and x["to"].lstrip().startswith(("*", "&")))
+                                                                                   or x["kind"] in ("PointerWithExposedProvenance",) or x["kind"].startswith("IntToPtr"))]
+                ptr_src = [c_ for c_ in m["calls"] if (c_.get("callee") or "").rsplit("::", 1)[-1] in ("get", "as_ptr", "as_mut_ptr", "add", "as_ref", "as_mut", "len")]
+                if not bad_casts and ptr_src:
+                    reason = "J-ptr-from-ref: dereferenced raw pointers derive from UnsafeCell::get / as_ptr of a live reference"
             if reason is None and kind == "assert:Overflow(Add)" and base in count_writers:
                 reason = "J-count-inc: the counter is bounded by the number of arena slots"
             if reason:
